@@ -110,8 +110,13 @@ def compare_sens(defn, m, out, rng, npoints=2):
                 continue
             vars_ = out[vkey]
             z = np.array([pt[s - 1] for s in vars_], float)
+            z_before = z.copy()
             try:
                 got = np.asarray(fn(z, t), float)
+                if not np.array_equal(z, z_before):
+                    # an integrator that hands its own working vector to these functions would be corrupted
+                    mism.append({"key": key, "kind": "input-modified", "detail": "the state vector passed in was changed in place"})
+                    continue
             except Exception as ex:
                 mism.append({"key": key, "kind": "raised", "detail": "".join(traceback.format_exception_only(type(ex), ex))[:300]})
                 continue
